@@ -200,7 +200,10 @@ func TestFoxvcStandinMapModel(t *testing.T) {
 	for _, p := range []string{"/a/{x}", "/a", "foo.{bar}/baz", "/a/*{w}"} {
 		ops = append(ops, mmOp{'u', http.MethodGet, p}, mmOp{'d', http.MethodGet, p})
 	}
-	st.Space = fmt.Sprintf("every sequence of <= %d operations from %d (Handle of %d patterns x %d methods, Update and Delete of 4 patterns), each run directly on the router and inside one write transaction", maxLen, len(ops), len(mmPool), len(methods))
+	// Truncate of one method that may hold routes, of a fixed verb that never holds any (its pre-instantiated root is
+	// childless), and of everything (pattern "" = no method argument)
+	ops = append(ops, mmOp{'t', http.MethodGet, "GET"}, mmOp{'t', http.MethodPut, "PUT"}, mmOp{'t', "", ""})
+	st.Space = fmt.Sprintf("every sequence of <= %d operations from %d (Handle of %d patterns x %d methods, Update and Delete of 4 patterns, Truncate of GET / of the never-used PUT / of everything), each run directly on the router and inside one write transaction", maxLen, len(ops), len(mmPool), len(methods))
 	handler := func(c Context) {}
 	report := func(format string, a ...interface{}) {
 		if len(st.Mismatches) < 40 {
@@ -259,7 +262,17 @@ func TestFoxvcStandinMapModel(t *testing.T) {
 			}
 			var err error
 			var rte *Route
+			truncate := func(tx *Txn) error {
+				if op.method == "" {
+					return tx.Truncate()
+				}
+				return tx.Truncate(op.method)
+			}
 			switch {
+			case op.kind == 't' && inTxn:
+				err = truncate(txn)
+			case op.kind == 't':
+				err = f.Updates(truncate)
 			case op.kind == 'h' && inTxn:
 				rte, err = txn.Handle(op.method, op.pattern, handler)
 			case op.kind == 'h':
@@ -301,6 +314,12 @@ func TestFoxvcStandinMapModel(t *testing.T) {
 				switch op.kind {
 				case 'h', 'u':
 					model[k] = rte
+				case 't':
+					for mk := range model {
+						if op.method == "" || mk.m == op.method {
+							delete(model, mk)
+						}
+					}
 				case 'd':
 					if rte != model[k] {
 						report("delete-result seq=%v step=%d txn=%v: Delete returned a route that is not the registered one", seq[:i+1], i, inTxn)
